@@ -656,8 +656,10 @@ def spec_check(ctx, budget):
         f = check_witness(ctx, w)
         if f:
             out["failures"].append(f)
-    for writer in ("write_seqs", "write_json", "write_tabular", "write_db"):
-        for par in (False, True):
+    writers = ("write_seqs", "write_json", "write_tabular", "write_db")
+    par_writers = writers if (ctx.thorough or budget not in (1, 10)) else (ctx.subrng("cid-par").choice(writers),)
+    for writer in writers:
+        for par in ((False, True) if writer in par_writers else (False,)):
             out["evaluations"] += 1
             f = _custom_id_case(ctx, dict(kind="custom_id", writer=writer, parallel=par, max_workers=2))
             if f:
